@@ -550,7 +550,7 @@ func main() {
 		c := proxy.VerifC34NewCounter(iv)
 		t := int64(1_700_000_000_000_000_000)
 		pure := r.Chance(1, 2)
-		nops := r.Range(3, 40)
+		nops := r.Range(3, 30)
 		var ops, obs []string
 		for k := 0; k < nops; k++ {
 			t += int64(r.Intn(int(iv/4 + 2)))
